@@ -1444,6 +1444,30 @@ class Interp:
         k = num_int(self.to_val(self.ev(node.args[1])))
         return z3.Select(self.heap.get('dkeys'), Val.ref(v))[k]
 
+    def spec_ufun_seq(self, node):
+        name = node.args[0].value
+        vs = [self.to_val(self.ev(a)) for a in node.args[1:]]
+        return SeqV(V.uf('us_' + name, *([Val] * len(vs) + [SeqVal]))(*vs))
+
+    def spec_count_def(self, node):
+        """definitional axioms of a counting function: cnt(0) = 0, cnt(k+1) = cnt(k) + [pred(k)]"""
+        name = node.args[0].value
+        lam = node.args[1]
+        cnt = V.uf('cnt_' + name, V.I, V.I)
+        k = z3.Int(self.st.fresh_name('cd_k'))
+        env = dict(self.env)
+        env[lam.args.args[0].arg] = Val.i(k)
+        sub = self.sub(env=env, pure=True)
+        pred = sub.truth(sub.ev(lam.body))
+        return Val.b(z3.And(cnt(0) == 0,
+                            z3.ForAll([k], z3.Implies(k >= 0, cnt(k + 1) == cnt(k) + z3.If(pred, 1, 0)),
+                                      patterns=[cnt(k + 1)])))
+
+    def spec_count_at(self, node):
+        name = node.args[0].value
+        cnt = V.uf('cnt_' + name, V.I, V.I)
+        return Val.i(cnt(num_int(self.to_val(self.ev(node.args[1])))))
+
     def spec_lower(self, node):
         v = self.to_val(self.ev(node.args[0]))
         return Val.s(STR_LOWER(Val.sv(v)))
